@@ -81,6 +81,8 @@ def solve_and_judge(case, which, in_situ=True):
         rec.count('models.judged.with_three_asset_portfolio')
     if case.get('build_opts', {}).get('codes'):
         rec.count('models.judged.with_prefix_related_market_codes_and_household_in_both')
+    if getattr(b, 'predeclared_lag', 0):
+        rec.count('models.judged.with_holder_declaring_its_own_lagged_deposits')
     if getattr(b, 'weightings_reused', 0):
         rec.count('models.judged.with_portfolio_rule_object_shared_by_households')
     if any(z['gov'].get('asset_markets_in') and z['gov'].get('deposits') for z in spec['zones']):
@@ -111,6 +113,8 @@ def gen_case(rng, idx, tier, emphasis=None):
         M.force_three_asset_portfolio(rng, spec)
     elif r == 0:
         spec = M.gen_spec(rng, n_zones=1)
+        if idx % 16 == 8:
+            M.force_share_portfolio_with_own_lag(rng, spec)
     elif r == 2:
         # two zones trading with each other, built while unrelated Model() objects come and go
         spec = M.ensure_cross_import(rng, M.gen_spec(rng, n_zones=2, ext=True))
@@ -158,7 +162,8 @@ class C01(object):
                          'models.judged.with_cross_zone_supplier_and_interleaved_models', 'models.judged.with_run_via_steps',
                          'models.judged.with_prefix_related_market_codes_and_household_in_both',
                          'models.judged.with_capitalists_in_several_regions_of_a_zone',
-                         'models.judged.with_three_asset_portfolio')
+                         'models.judged.with_three_asset_portfolio',
+                         'models.judged.with_holder_declaring_its_own_lagged_deposits')
     which = ('zone', 'ledger')
 
     def n_cases(self, tier):
